@@ -35,7 +35,7 @@ def main():
     ctx = Ctx("C16", "model_checking")
     thorough = ctx.tier == "thorough"
     ctx.rule = ("TLC enumerates every sequence of 2 writes (assignment, self-assignment, +=, |=, append, extend, insert, item and "
-                "slice assignment, add, update, assignment of a lazy view of the field's own contents - reversed / generator / chain -, and "
+                "slice assignment, add, update, remove, pop, del item, clear, discard, assignment of a lazy view of the field's own contents - reversed / generator / chain -, and "
                 "dataclasses.replace of the owner as last step; argument lists of length <= 2 with repetitions, sets over 3 elements) and samples "
                 "sequences of 5 writes by seeded simulation; each is replayed on a real instance; after every write the list "
                 "field (exact sequence), the set field, the graph relations and the inverse fields of the elements are compared "
